@@ -8,6 +8,7 @@ import Astits.Proofs.Layout
 import Astits.Proofs.PacketRTCanon
 import Astits.Props.C04
 import Astits.Proofs.SpecEq.TS
+import Astits.Proofs.Reemit.Write
 namespace Astits.C11
 
 /-- the three header bytes: every PID (2^13), counter (16), scrambling value (4) and flag combination
@@ -313,5 +314,136 @@ the writer recomputes it -/
 def exStaleLen : Packet :=
   { adaptationField := some { length := 7, stuffingLength := 182 }, header := hdrAFOnly, payload := [] }
 example : differs (writePacket exStaleLen 188) (Spec.tsEncode exStaleLen) = true := by decide +kernel
+
+/-! ## P2 — byte-identical re-emission of ARBITRARY parsed bytes (NextPacket → WritePacket)
+
+`parse_tsEncode` + `writePacket_eq_tsEncode` say `writePacket (parse (tsEncode p)) = tsEncode p`.  This section is the
+converse, on bytes: for ANY 188 bytes `bs` that `parsePacket` accepts, the parsed packet is written back as `bs` **iff**
+`Reemit.Reemittable bs` — a decidable (`Bool`) predicate computed from the bytes alone (definition and docstring in
+`Proofs/Reemit/Write.lean`): the reserved / stuffing bytes have the values the writer emits.
+Helper development: `Proofs/Reemit/{Bytes,Decode,Write}.lean`:
+* `Reemit.parsePacket_inv`: the parser as a pure function — a successful parse returns `Reemit.pktOf bs`, and the optional
+  parts it read lie inside the 188 bytes (`InRange`);
+* `Reemit.write_pktOf`: `writePacket (pktOf bs) 188 = .ok bs ↔ Reemittable bs`.
+Hypotheses: 188 bytes, every element a byte (`IsBytes`: the model's `Bytes` is `List Nat`). -/
+
+section Reemission
+open Astits.Reemit
+
+/-- **P2**: byte-identical re-emission ⇔ `Reemittable` -/
+theorem reemit_iff (bs : Bytes) (hl : bs.length = 188) (hb : IsBytes bs) (p : Packet)
+    (hp : (parsePacket none).val bs = .ok p) :
+    writePacket p 188 = .ok bs ↔ Reemittable bs = true := by
+  obtain ⟨rfl, hr⟩ := parsePacket_inv bs hl hp
+  exact write_pktOf bs hl hb hr
+
+/-- whatever the writer returns for a parsed packet that is not `Reemittable` — an error or 188 other bytes — it is not `bs` -/
+theorem not_reemittable (bs : Bytes) (hl : bs.length = 188) (hb : IsBytes bs) (p : Packet)
+    (hp : (parsePacket none).val bs = .ok p) (hn : Reemittable bs = false) : writePacket p 188 ≠ .ok bs := by
+  intro h
+  rw [(reemit_iff bs hl hb p hp).mp h] at hn
+  cases hn
+
+/-- the parser as a function of the bytes (what `reemit_iff` rests on) -/
+theorem parse_is_pktOf (bs : Bytes) (hl : bs.length = 188) (p : Packet) (hp : (parsePacket none).val bs = .ok p) :
+    p = pktOf bs ∧ InRange bs := parsePacket_inv bs hl hp
+
+/-- every reference-encoded packet (`Spec.tsEncode p`, `p` well-formed, in delivered form, exactly 188 bytes, byte-valued
+payload / private data) is `Reemittable`: the predicate is not vacuous on conformant streams -/
+theorem tsEncode_reemittable (p : Packet) (h : PacketWF p) (hc : PacketCanon p) (hx : PacketExact p)
+    (hb : IsBytes (Spec.tsEncode p)) : Reemittable (Spec.tsEncode p) = true :=
+  (reemit_iff _ (C04.writePacket_length p 188 _ (writePacket_eq_tsEncode_wf p h hc hx)) hb p (parse_tsEncode p h hc hx)).mp
+    (writePacket_eq_tsEncode_wf p h hc hx)
+
+/-! ### non-vacuity -/
+
+/-- the packet with PCR, private data, a full extension, stuffing and payload of this file -/
+example : exBytes.length = 188 ∧ IsBytes exBytes ∧ Reemittable exBytes = true := by decide +kernel
+example : writePacket exPkt 188 = .ok exBytes :=
+  (reemit_iff exBytes (by decide +kernel) (by decide +kernel) exPkt
+    (packet_roundtrip_exact exPkt exPkt_wf exPkt_full exPkt_canon exBytes exPkt_written)).mpr (by decide +kernel)
+
+def padTo (l : Bytes) (x : Nat) : Bytes := l ++ List.replicate (188 - l.length) x
+
+/-- outcome of NextPacket → WritePacket on `bs`: `some true` byte-identical, `some false` 188 other bytes, `none` an error -/
+def reemits (bs : Bytes) : Option Bool :=
+  match (parsePacket none).val bs with
+  | .ok p => (match writePacket p 188 with | .ok o => some (decide (o = bs)) | _ => none)
+  | _ => none
+
+/-- what the writer emits instead (first 12 bytes) -/
+def reemitted (bs : Bytes) : Bytes :=
+  match (parsePacket none).val bs with
+  | .ok p => (match writePacket p 188 with | .ok o => o.take 12 | _ => [])
+  | _ => []
+
+/-! ### the excluded points (`Reemittable = false`), each evaluated on the model: what comes out instead -/
+
+/-- (1) the recorded finding `af-extension-reserved-bytes`: extension length 2 = flags byte + 1 reserved byte.  Re-emitted
+with adaptation_field_extension_length 1: `04 01 02 1f ff` → `04 01 01 1f ff` (the reserved byte is accounted as stuffing) -/
+example : Reemittable (padTo [0x47, 0x01, 0x00, 0x30, 4, 0x01, 2, 0x1f, 0xff] 0xab) = false
+    ∧ reemits (padTo [0x47, 0x01, 0x00, 0x30, 4, 0x01, 2, 0x1f, 0xff] 0xab) = some false
+    ∧ reemitted (padTo [0x47, 0x01, 0x00, 0x30, 4, 0x01, 2, 0x1f, 0xff] 0xab) = [0x47, 0x01, 0x00, 0x30, 4, 0x01, 1, 0x1f, 0xff, 0xab, 0xab, 0xab] := by
+  decide +kernel
+/-- … the same extension without the reserved byte is re-emitted identically -/
+example : Reemittable (padTo [0x47, 0x01, 0x00, 0x30, 3, 0x01, 1, 0x1f] 0xab) = true := by decide +kernel
+
+/-- (2) adaptation_field_extension_length = 0 (not conformant: the flags byte is mandatory): the parser returns an extension
+without reading flags, the writer needs 2 bytes for it — `WritePacket` FAILS (payload no longer fits) -/
+example : Reemittable (padTo [0x47, 0x01, 0x00, 0x30, 2, 0x01, 0] 0xab) = false
+    ∧ reemits (padTo [0x47, 0x01, 0x00, 0x30, 2, 0x01, 0] 0xab) = none := by decide +kernel
+
+/-- (3) extension reserved flag bits clear (00 instead of 1f): re-emitted as 1f -/
+example : Reemittable (padTo [0x47, 0x01, 0x00, 0x30, 3, 0x01, 1, 0x00] 0xab) = false
+    ∧ (reemitted (padTo [0x47, 0x01, 0x00, 0x30, 3, 0x01, 1, 0x00] 0xab)).getD 7 0 = 0x1f := by decide +kernel
+
+/-- (4) an adaptation field stuffing byte that is not 0xff: re-emitted as 0xff -/
+example : Reemittable (padTo [0x47, 0x01, 0x00, 0x30, 3, 0x00, 0xff, 0x00] 0xab) = false
+    ∧ (reemitted (padTo [0x47, 0x01, 0x00, 0x30, 3, 0x00, 0xff, 0x00] 0xab)).getD 7 0 = 0xff
+    ∧ Reemittable (padTo [0x47, 0x01, 0x00, 0x30, 3, 0x00, 0xff, 0xff] 0xab) = true := by decide +kernel
+
+/-- (5) PCR reserved bits clear (byte 0x80 instead of 0xfe): re-emitted set -/
+example : Reemittable (padTo [0x47, 0x01, 0x00, 0x30, 7, 0x10, 1, 2, 3, 4, 0x80, 5] 0xab) = false
+    ∧ (reemitted (padTo [0x47, 0x01, 0x00, 0x30, 7, 0x10, 1, 2, 3, 4, 0x80, 5] 0xab)).getD 10 0 = 0xfe
+    ∧ Reemittable (padTo [0x47, 0x01, 0x00, 0x30, 7, 0x10, 1, 2, 3, 4, 0xfe, 5] 0xab) = true := by decide +kernel
+
+/-- (6) adaptation_field_control = 10 (no payload) with bytes other than 0xff after the adaptation field: they are dropped
+and 0xff is written; a conformant '10' packet (adaptation_field_length 183) is re-emitted identically -/
+example : Reemittable (padTo [0x47, 0x01, 0x00, 0x20, 1, 0x00] 0xab) = false
+    ∧ reemitted (padTo [0x47, 0x01, 0x00, 0x20, 1, 0x00] 0xab) = [0x47, 0x01, 0x00, 0x20, 1, 0x00, 0xff, 0xff, 0xff, 0xff, 0xff, 0xff]
+    ∧ Reemittable (padTo [0x47, 0x01, 0x00, 0x20, 183, 0x00] 0xff) = true := by decide +kernel
+
+/-- (7) adaptation_field_control = 00 (reserved): 184 bytes 0xff come out, whatever was there -/
+example : Reemittable (padTo [0x47, 0x01, 0x00, 0x00] 0xab) = false
+    ∧ reemitted (padTo [0x47, 0x01, 0x00, 0x00] 0xab) = [0x47, 0x01, 0x00, 0x00, 0xff, 0xff, 0xff, 0xff, 0xff, 0xff, 0xff, 0xff]
+    ∧ Reemittable (padTo [0x47, 0x01, 0x00, 0x00] 0xff) = true := by decide +kernel
+
+/-- (8) payload only, and adaptation_field_length 0 followed by a payload: always identical -/
+example : Reemittable (padTo [0x47, 0x01, 0x00, 0x10] 0xab) = true ∧ Reemittable (padTo [0x47, 0x01, 0x00, 0x30, 0] 0xab) = true := by
+  decide +kernel
+
+/-- (9) optional parts that run past adaptation_field_length (length 1 with the PCR flag set): the parser reads the PCR from
+the payload bytes without complaint (it never compares with adaptation_field_length); `WritePacket` then FAILS -/
+example : ((parsePacket none).val (padTo [0x47, 0x01, 0x00, 0x30, 1, 0x10, 1, 2, 3, 4, 0xfe, 5] 0xab)).isOk = true
+    ∧ Reemittable (padTo [0x47, 0x01, 0x00, 0x30, 1, 0x10, 1, 2, 3, 4, 0xfe, 5] 0xab) = false
+    ∧ reemits (padTo [0x47, 0x01, 0x00, 0x30, 1, 0x10, 1, 2, 3, 4, 0xfe, 5] 0xab) = none := by decide +kernel
+
+/-- (10) adaptation_field_length > 183 (runs past the packet): parsed (empty payload), `WritePacket` FAILS -/
+example : ((parsePacket none).val (padTo [0x47, 0x01, 0x00, 0x30, 200, 0x00] 0xff)).isOk = true
+    ∧ reemits (padTo [0x47, 0x01, 0x00, 0x30, 200, 0x00] 0xff) = none
+    ∧ reemits (padTo [0x47, 0x01, 0x00, 0x20, 184, 0x00] 0xff) = none := by decide +kernel
+
+/-- (11) piecewise-rate reserved bits / DTS_next_AU marker bits clear: re-emitted set -/
+example : Reemittable (padTo [0x47, 0x01, 0x00, 0x30, 6, 0x01, 4, 0x5f, 0x01, 2, 3] 0xab) = false
+    ∧ Reemittable (padTo [0x47, 0x01, 0x00, 0x30, 6, 0x01, 4, 0x5f, 0xc1, 2, 3] 0xab) = true
+    ∧ Reemittable (padTo [0x47, 0x01, 0x00, 0x30, 8, 0x01, 6, 0x3f, 0x90, 2, 3, 4, 5] 0xab) = false
+    ∧ Reemittable (padTo [0x47, 0x01, 0x00, 0x30, 8, 0x01, 6, 0x3f, 0x91, 2, 3, 4, 5] 0xab) = true := by decide +kernel
+
+/-- (12) the hypothesis `IsBytes` (a modelling artefact: `Bytes = List Nat`): a header "byte" 0x100 is masked by the parser,
+so the predicate (which never looks at header bytes) says true while the bytes differ.  Real slices satisfy `IsBytes`. -/
+example : Reemittable (padTo [0x47, 0x01, 0x100, 0x10] 0xab) = true
+    ∧ reemits (padTo [0x47, 0x01, 0x100, 0x10] 0xab) = some false := by decide +kernel
+
+end Reemission
 
 end Astits.C11
